@@ -50,7 +50,34 @@ def body_classes():
         ("errors_two_with_data", J({"errors": [E_MIN, E_FULL], "data": DATA})),
         ("errors_one_data_null", J({"errors": [E_EXTRA], "data": None})),
         ("errors_with_extensions_key", J({"errors": [E_FULL], "extensions": {"t": 1}, "data": DATA})),
-    ] + lexical_classes()
+    ] + lexical_classes() + falsy_member_classes()
+
+
+def falsy_member_classes():
+    """Derived family: every member that a truthiness test could mistake for 'absent' - error objects with empty / falsy members
+    (still spec-shaped: an object carrying a string message), alone, before and after an ordinary error, with and without data;
+    falsy data values with and without an errors member."""
+    J = lambda o: json.dumps(o).encode()
+    out = []
+    variants = [("msg_empty", {"message": ""}), ("msg_zero", {"message": "0"}), ("msg_space", {"message": " "}),
+                ("msg_empty_full", {"message": "", "locations": [{"line": 3, "column": 1}], "path": ["x"], "extensions": {"code": "MASKED"}}),
+                ("empty_members", {"message": "m", "locations": [], "path": [], "extensions": {}}),
+                ("null_members", {"message": "m", "locations": None, "path": None, "extensions": None}),
+                ("path_zero", {"message": "m", "path": [0]}), ("msg_false_string", {"message": "false"}), ("msg_null_string", {"message": "null"})]
+    for n, e in variants:
+        out.append((f"errobj_{n}_alone", J({"errors": [e]})))
+        out.append((f"errobj_{n}_with_data", J({"errors": [e], "data": DATA})))
+        out.append((f"errobj_{n}_after_ordinary", J({"errors": [E_MIN, e], "data": DATA})))
+        out.append((f"errobj_{n}_before_ordinary", J({"errors": [e, E_FULL]})))
+        out.append((f"errobj_{n}_twice", J({"errors": [e, e], "data": None})))
+    for n, d in (("empty_object", {}), ("empty_list", []), ("zero", 0), ("false", False), ("empty_string", "")):
+        out.append((f"data_falsy_{n}", J({"data": d})))
+        out.append((f"data_falsy_{n}_errors_empty", J({"data": d, "errors": []})))
+        out.append((f"data_falsy_{n}_errors_null", J({"data": d, "errors": None})))
+        out.append((f"data_falsy_{n}_errors_one", J({"data": d, "errors": [E_MIN]})))
+    out.append(("errors_null_only", J({"errors": None})))
+    out.append(("errors_null_data_null", J({"errors": None, "data": None})))
+    return out
 
 
 def lexical_classes():
